@@ -1,9 +1,29 @@
 from . import ref
 
 
-def replay_loads(data, enc, hexbm, cfg=None):
+# a caller-supplied configuration as it was when it was first used ...
+PRIOR_BEFORE = {'2': {'field_type': 'LLVAR', 'field_length': 0}, '3': {'field_type': 'LLVAR', 'field_length': 0},
+                '14': {'field_type': 'FIXED', 'field_length': 4}, '38': {'field_type': 'FIXED', 'field_length': 6}}
+
+
+def prior_edit(cfg):
+    """... and the in-place edits made before it is used again: an entry replaced, one changed, one deleted, one added"""
+    cfg['3'] = {'field_type': 'FIXED', 'field_length': 6}
+    cfg['2']['field_type'] = 'LLLVAR'
+    del cfg['38']
+    cfg['41'] = {'field_type': 'FIXED', 'field_length': 8}
+
+
+def replay_loads(data, enc, hexbm, cfg=None, prior=False):
     from cardutil import iso8583
     from . import packaged
+    if prior:
+        import copy
+        bitmap_bytes = lambda bits: ref.ref_bitmap(bits, True)
+        cfg = copy.deepcopy(PRIOR_BEFORE)
+        iso8583.loads(b'1240' + bitmap_bytes([2, 3]) + b'0512345' + b'04abcd', iso_config=cfg)
+        iso8583.loads(b'1240' + bitmap_bytes([3, 14]) + b'02xy' + b'2512', iso_config=cfg)
+        prior_edit(cfg)
     cfgs = cfg or packaged.bit_config()
     try:
         want, dontcare = ref.ref_decode(data, cfgs, enc, hexbm)
